@@ -1453,6 +1453,36 @@ class SymExec:
                 p2.events.append(('yield-from', v, st, p2.loops))
                 out.append(p2)
             return out
+        if isinstance(st, ast.Expr) and isinstance(st.value, ast.Call) and isinstance(st.value.func, ast.Attribute) and \
+           st.value.func.attr == 'update' and isinstance(st.value.func.value, ast.Name) and \
+           _as_dict(p.env.get(st.value.func.value.id)) is not None and not st.value.args and st.value.keywords and \
+           all(k_.arg is not None for k_ in st.value.keywords):
+            # d.update(k=v) on a local dict known entry by entry: the dict with that entry
+            nm_ = st.value.func.value.id
+            cur_ = _as_dict(p.env[nm_])
+            p.env[nm_] = cur_
+            keys_ = list(cur_.keys)
+            vals_ = list(cur_.values)
+            outp = [p]
+            for k_ in st.value.keywords:
+                nxt_ = []
+                for q_ in outp:
+                    for v_, q2 in self.eval_expr(k_.value, q_):
+                        nxt_.append((v_, q2))
+                outp = []
+                for v_, q2 in nxt_:
+                    d_ = q2.env.get(nm_, cur_)
+                    ks_ = [x_ for x_ in d_.keys]
+                    vs_ = [x_ for x_ in d_.values]
+                    hit_ = [i_ for i_, x_ in enumerate(ks_) if isinstance(x_, ast.Constant) and x_.value == k_.arg]
+                    if hit_:
+                        vs_[hit_[0]] = v_
+                    else:
+                        ks_.append(ast.Constant(value=k_.arg))
+                        vs_.append(v_)
+                    q2.env[nm_] = ast.Dict(keys=ks_, values=vs_)
+                    outp.append(q2)
+            return outp
         if isinstance(st, ast.Expr) and isinstance(st.value, ast.Call):
             out = []
             c0 = st.value
@@ -1970,7 +2000,10 @@ def simplify(e):
                           isinstance(l_.value.func, ast.Attribute) and l_.value.func.attr == 'split') or \
                          (isinstance(l_, ast.Call) and isinstance(l_.func, ast.Name) and
                           l_.func.id in ('int', 'float', 'complex', 'str', 'len', 'bool', 'abs')) or \
-                         (isinstance(l_, ast.Constant) and l_.value is not None)
+                         (isinstance(l_, ast.Constant) and l_.value is not None) or \
+                         (isinstance(l_, ast.BinOp) and isinstance(l_.op, (ast.Add, ast.Sub, ast.Mult, ast.Div, ast.FloorDiv,
+                                                                            ast.Mod, ast.Pow))) or \
+                         isinstance(l_, (ast.Tuple, ast.List, ast.Dict, ast.Set, ast.JoinedStr, ast.Compare))
             if never_none:
                 return ast.Constant(value=isinstance(n.ops[0], ast.IsNot))
             if isinstance(l_, ast.Constant) and l_.value is None:
@@ -2401,6 +2434,16 @@ def record_fields(cls, call):
             return {}
         out[k.arg] = k.value
     return out if set(out) == set(fields) else {}
+
+
+def _as_dict(v):
+    """the dict display for a dict known entry by entry ({'k': v} / dict(k=v) / {}), None otherwise"""
+    if isinstance(v, ast.Dict) and all(isinstance(k_, ast.Constant) for k_ in v.keys):
+        return v
+    if isinstance(v, ast.Call) and isinstance(v.func, ast.Name) and v.func.id == 'dict' and not v.args and \
+       all(k_.arg is not None for k_ in v.keywords):
+        return ast.Dict(keys=[ast.Constant(value=k_.arg) for k_ in v.keywords], values=[k_.value for k_ in v.keywords])
+    return None
 
 
 def _is_bare(v):
